@@ -254,6 +254,13 @@ def _run_hypothesis(part: Part, rec: Recorder, n: int, hseed: int) -> Optional[t
         test()
     except Violation:
         return rec.last_failure
+    except hypothesis.errors.Flaky:
+        # the code under test answered differently on Hypothesis' own replay (e.g. it iterates
+        # over a set of tasks): keep the violation that was seen; the parent re-runs the saved
+        # case and reports it only if it fails again from the file
+        if rec.last_failure is not None:
+            return rec.last_failure
+        raise
     return None
 
 
@@ -342,7 +349,11 @@ def run_check(mod: Any, tier: str, seed: int, only_part: Optional[str], collect:
             continue
         seen.add(key)
         path = write_replay(prop, part_name, case, vj)
-        confirmed = confirm_replay(mod, part_name, case)
+        confirmed = None
+        for _ in range(3):  # (a second and third try only for code that is not deterministic)
+            confirmed = confirm_replay(mod, part_name, case)
+            if confirmed is not None:
+                break
         if confirmed is None:
             print(
                 f"HARNESS-ERROR failure in part={part_name} kind={vj['kind']} did not reproduce "
